@@ -549,6 +549,18 @@ P["C20"] = {"property": "C20", "level": "proof", "units": [
       ]},
       expect=["exit\\.assertion\\.1", "exit\\.assertion\\.2", "getopt_long\\.assertion\\.2", "getopt_long\\.assertion\\.3", "find_short\\.assertion\\.1", "tool_main\\.loop_invariant_step"], timeout=600,
       replay={"driver": "replay/r_C20_verify.c"}),
+] + [
+    U("C20.%s.option_tables" % t.replace("-", "_"), "main (tools/%s.c) up to getopt_long" % t, "tools/%s.c" % t, "contracts/tools_c.h",
+      "int argc; char **argv; tool_main(argc, argv);", "tool_main/contract_C20_tool_main_tables",
+      stubs=TOOLS_STUBS, defines=["main=tool_main", "VERIF_GETOPT_STOP"], flags=[], kind="finite",
+      expect=["getopt_long\\.assertion\\.2", "getopt_long\\.assertion\\.3", "find_short\\.assertion\\.1"], timeout=600)
+    for t in ("jwt-generate", "key2jwk", "jwk2key")
+] + [
+    U("C20.key2jwk.process_ec_key", "process_ec_key -> ec_alg_type, get_one_bn (tools/key2jwk.c)", "tools/key2jwk.c", "contracts/key2jwk_c.h",
+      "EVP_PKEY *k; int priv; json_t *j; process_ec_key(k, priv, j);", "process_ec_key/contract_C20_process_ec_key",
+      stubs=["stubs/key2jwk_env.c"], defines=["main=tool_main"], flags=[],
+      expect=["contract_C20_process_ec_key\\.postcondition\\.3", "BN_bn2bin(pad)?\\.assertion\\.1"], timeout=600,
+      replay={"driver": "replay/r_C20_ec.c"}),
 ]}
 
 for _f in ("openssl_process_rsa", "openssl_process_ec", "openssl_process_eddsa"):
